@@ -21,3 +21,7 @@ func verifMergeTasks(sm *segmentMerge) *verifMergeInfo                          
 func verifMergeStart(s *Scorch, epoch uint64, sm *segmentMerge)                       {}
 func verifIntroduceMerge(s *Scorch, info *verifMergeInfo, skipped []bool, snap *IndexSnapshot) {
 }
+func verifIntroduceSegmentLocked(s *Scorch, next *segmentIntroduction, snap *IndexSnapshot) {}
+func verifIntroducePersistLocked(s *Scorch, ids []uint64, snap *IndexSnapshot)              {}
+func verifIntroduceMergeLocked(s *Scorch, info *verifMergeInfo, skipped []bool, snap *IndexSnapshot) {
+}
